@@ -102,8 +102,10 @@ namespace foonathan
             memory_pool& operator=(memory_pool&& other) noexcept
             {
                 leak_checker::operator=(detail::move(other));
-                arena_     = detail::move(other.arena_);
+                // note: the free list must go first, moving it still accesses the nodes of the old list,
+                // which live in the blocks the arena releases on assignment
                 free_list_ = detail::move(other.free_list_);
+                arena_     = detail::move(other.arena_);
                 return *this;
             }
             /// @}
